@@ -71,9 +71,11 @@ def variations(g, table, chans, SR, M):
             # every channel's first segment grows by the same number of samples: valid as a whole, invalid after
             # any single channel's change
             delta = r.sample(range(0, 20), M)
+            # (the swept durations need not be whole samples: the stored value is the one that was given)
+            frac = [r.choice([0, 0, 0.25, -0.3, 0.125]) for _ in delta]
             for ch in chans:
                 vs.append({"chan": ch, "name": table[ch][0][0], "arg": enc("duration"),
-                           "vals": [enc((table[ch][0][2] + x) / SR) for x in delta]})
+                           "vals": [enc((table[ch][0][2] + x + f) / SR) for x, f in zip(delta, frac)]})
         return vs
     for _ in range(r.randint(1, 3)):
         ch = r.choice(chans)
